@@ -136,6 +136,23 @@ def run(chk):
                        ("select b.from (select 1) t", "non-validating"), ("insert into t select a.from (select x from y) q", "non-validating"),
                        ("update only t set a = b", "postgres"), ("update only t set a = s.b from s where t.k in (select k from r)", "postgres")]:
             jobs.append({"text": t, "dialect": dia, "silent": False})
+        # ... (KF-C10-11, KF-C10-12): an inline parser directive naming an unknown dialect, a dialect grammar that gives up, UPDATE TOP (n)
+        for t, dia in [("-- sqlfluff:dialect:nonexistent\nSELECT 1", "ansi"), ("UPDATE TOP (10) t SET a = s.b FROM s", "tsql"),
+                       ("UPDATE TOP (10) PERCENT t SET a = 1", "tsql"),
+                       ("ALTER TABLE a EXCHANGE PARTITION ( p ) WITH TABLE * INTO x FROM y", "mysql")]:
+            jobs.append({"text": t, "dialect": dia, "silent": False})
+        # in-file parser directives (comment lines that configure sqlfluff) in front of valid and mutated statements
+        keys = ["dialect:nonexistent", "dialect:tsql", "dialect:", "templater:python", "templater:placeholder", "templater:nonexistent", "templater:raw",
+                "max_line_length:x", "rules:LT01", "exclude_rules:all", "encoding:x", "large_file_skip_byte_limit:1", "runaway_limit:0",
+                "templater:jinja:context:a:b", "indentation:tab_space_size:x", "nonexistent:1", ":", "dialect:ansi:x"]
+        for i in range(300 if quick else 5000):
+            base = rnd.choice(gens) if gens and rnd.random() < 0.5 else rnd.choice(corpus)["sql"]
+            if rnd.random() < 0.3:
+                base = mutate(rnd, base, rnd.choice(corpus)["sql"])
+            lead = "".join("-- sqlfluff:%s\n" % rnd.choice(keys) for _ in range(rnd.choice([1, 1, 2])))
+            if rnd.random() < 0.2:
+                lead = lead.replace("-- sqlfluff:", rnd.choice(["--sqlfluff:", "-- noqa: disable=all\n-- sqlfluff:", "/* sqlfluff:dialect:nonexistent */ -- sqlfluff:"]))
+            jobs.append({"text": lead + base, "dialect": rnd.choice(dialects) if rnd.random() < 0.3 else "ansi", "silent": rnd.random() < 0.2})
         # valid column-level statements from Col.tla (every statement kind, random expression trees) under random dialects
         from . import c02
         from .. import render_col
